@@ -549,6 +549,8 @@ func (gw *GlobalWindow) sendResult(data []types.Row) {
 	default:
 		select {
 		case <-gw.outputChan:
+			// the displaced result is lost: it counts as dropped
+			atomic.AddInt64(&gw.droppedCount, 1)
 			select {
 			case gw.outputChan <- data:
 				atomic.AddInt64(&gw.sentCount, 1)
